@@ -6,7 +6,7 @@ import warnings
 
 import numpy as np
 
-from .. import gen, geom
+from .. import gen, geom, snap
 from ..core import Skip, signature
 from ..monitor import Monitor
 
@@ -285,6 +285,9 @@ def run_unit(unit, rng, ctx):
     wit = {'matrix': m, 'site_frac': sys_.site_frac, 'labels': sys_.labels, 'site_radius': arg, 'inner_fraction': f}
     _seen['radius'] = None
     _seen['auto_radius'] = None
+    arg_before = snap.freeze(arg)
+    sites_before = snap.structure_content(sites)
+    traj_before = snap.traj_content(traj)
     try:
         with warnings.catch_warnings():
             warnings.simplefilter('ignore')
@@ -333,6 +336,21 @@ def run_unit(unit, rng, ctx):
     if mode in ('float', 'dict') and n_bad == 0 and n_known == 0:
         # margin-controlled atoms: the intended history must be reproduced exactly
         ctx.check(np.array_equal(states[:, :nA], sys_.states_true) and np.array_equal(inner[:, :nA], sys_.inner_true), f'{what}: margin-controlled atoms are not assigned to the sites they were placed in', wit)
+    # ---- history: the same argument objects are used again; nothing handed in may be modified ----
+    if mode in ('float', 'dict', 'overlap'):
+        ctx.check(snap.same(arg_before, snap.freeze(arg)), f'{what}: the site_radius argument was modified by the call: {arg_before} -> {arg}', wit)
+        ctx.check(snap.same(sites_before, snap.structure_content(sites)), f'{what}: the sites structure was modified by the call', wit)
+        ctx.check(snap.diff_traj_content(traj_before, snap.traj_content(traj)) is None, f'{what}: the trajectory was modified by the call: {snap.diff_traj_content(traj_before, snap.traj_content(traj))}', wit)
+        if unit['i'] % 2 == 0:
+            if rng.integers(2):
+                _ = traj.displacements  # leave the source in the other representation
+            with warnings.catch_warnings():
+                warnings.simplefilter('ignore')
+                tr2 = traj.transitions_between_sites(sites=sites, floating_specie='Li', site_radius=arg, site_inner_fraction=f)
+            nb2, nk2, _ = check_assignment(ctx, what + ' [second call, same argument objects]', m, pos, sys_.site_frac, radii, f, np.asarray(tr2.states), np.asarray(tr2.inner_states), disjoint, cutoff, wit, groups)
+            if n_known == 0 and nk2 == 0:
+                ctx.check(np.array_equal(tr2.states, states) and np.array_equal(tr2.inner_states, inner), f'{what}: a second call with the same argument objects gives different states', wit)
+            ctx.count('second_calls_with_same_arguments')
     ctx.count('atom_frames_checked', states.size)
     ctx.count(f'K1_atom_frames:{sys_.kind}', n_known)
     ctx.count('assigned_through_lattice_image', via)
